@@ -203,3 +203,7 @@ Definition opv_put_obs (c : (N * text * text * N * option nat * nat) * bool * na
   let m := if m =? 0 then VDown else if m =? 1 then VUp else if m =? 2 then VGoto else VFirst in
   let s' := put after pc (run_op_v k ins t m count i) in
   (o_text s', N.of_nat (o_cur s'), o_reg s').
+
+(** j / k as motions: (text, down?, count, cursor) *)
+Definition vert_obs (c : text * bool * nat * nat) : N :=
+  let '(t, down, count, i) := c in N.of_nat (move_vert t down count i).
